@@ -184,7 +184,7 @@ def handle : List String → Option String
     let tbl ← (← parseTree table).list tableRow?
     let body ← body? proto (← parseTree doc)
     let env := Env.ofGen (fun ls => (lookup tbl ls).1) (fun ls => (lookup tbl ls).2) (← ctxTtl.toNat?)
-    match body.run env Gen.flushPoints (← now.toInt?) with
+    match body.run env Gen.pointsHit (← now.toInt?) with
     | .error _ => some "fault"
     | .ok chunks => some ("|".intercalate (chunks.map showChunk))
   | _ => none
